@@ -6,6 +6,7 @@ property's check (C01 / C02 / C08 / C09).
     from checks import law_audits
     law_audits.run(ck)                       # all theorems
     law_audits.run(ck, groups=["sweep"])     # a subset (keys of GROUPS)
+    law_audits.run(ck, groups=["generic"])   # the generic sampler / C04 capstone (module QmcProps.C04Capstone)
 """
 MODULE = "QmcProps.Law"
 NS = "Qmc.LawThm."
@@ -39,7 +40,9 @@ GROUPS = {
              "clusterUpdate_law_eq_kernel", "step_law_eq_kernels", "isingStep_law_invariant",
              "isingStep_law_invariant_hb",
              # hperm discharged: the traversal is complete and sound, the update's family = Kernel.componentFlips
-             "clusterKernel_eq_components", "step_law_eq_kernels_components", "isingStep_law_eq_timestepK"],
+             "clusterKernel_eq_components", "step_law_eq_kernels_components", "isingStep_law_eq_timestepK",
+             # heat-bath twins
+             "step_law_eq_kernels_components_hb", "isingStep_law_eq_timestepK_hb"],
     # non-vacuity facts used by the examples
     "example": ["Example.exB_legal", "Example.exB_mem_legal", "Example.H_wf", "Example.exB_travOK",
                 "Example.spec3_trav2"],
@@ -47,14 +50,31 @@ GROUPS = {
 
 THEOREMS = [NS + t for g in GROUPS.values() for t in g]
 
+# group "generic" (property C04): the generic sampler Qmc::timestep with do_loop_updates = false - refinement, law =
+# kernels, invariance, capstone. Lives in its own module (QmcProps/C04Capstone.lean, namespace Qmc.C04; helpers
+# QmcProofs/LawGeneric.lean, namespace Qmc.Law); audited only when asked for: law_audits.run(ck, groups=["generic"]).
+GENERIC_MODULE = "QmcProps.C04Capstone"
+GENERIC = ["Qmc.C04." + t for t in [
+    "generic_capstone", "generic_capstone_hb", "genericSampler_capstone", "genericTimestep_run",
+    "genericTimestep_cfg", "Example.exG_flags", "Example.exG_varsOK", "Example.exG_nonneg", "Example.exG_varsPos",
+    "Example.exOff_flags"]] + ["Qmc.Law." + t for t in [
+    "genericTimestepWith_refines", "genericTimestep_refines", "genericTimestepT_cfg",
+    "lawK_genericStepCfgT", "lawK_genericStepCfgT_hb", "genericStep_law_invariant", "genericStep_law_invariant_hb",
+    "genericSampler_law_invariant", "genericSampler_law_invariant_hb"]]
+
 
 def run(ck, groups=None):
     """build QmcProps.Law and audit the listed theorems under the obligation prefix '<prop>law'"""
-    names = THEOREMS if groups is None else [NS + t for g in groups for t in GROUPS[g]]
+    generic = groups is not None and "generic" in groups
+    law_groups = None if groups is None else [g for g in groups if g != "generic"]
+    names = THEOREMS if law_groups is None else [NS + t for g in law_groups for t in GROUPS[g]]
     save = ck.prop
     try:
-        if ck.lake_build([MODULE]):
+        if names and ck.lake_build([MODULE]):
             ck.prop = save + "law"
             ck.audit(MODULE, names)
+        if generic and ck.lake_build([GENERIC_MODULE]):
+            ck.prop = save + "lawgen"
+            ck.audit(GENERIC_MODULE, GENERIC)
     finally:
         ck.prop = save
